@@ -1567,7 +1567,13 @@ pub mod gen {
         }
         // storage sometimes smaller than some PDUs: oversize rejections
         let maxpdu = if rng.chance(1, 4) { (maxlen / 2).max(8) } else { maxlen + 8 };
-        Program { scenario: "flow", cfg: cfg(slots, maxpdu, slots + 2, 1, &rxt), ops }
+        // storage sometimes scarce: packets rejected for lack of storage in the middle of a frame
+        let nbuf = match rng.below(4) {
+            0 => rng.usize_in(0, 1),
+            1 => rng.usize_in(1, slots),
+            _ => slots + 2,
+        };
+        Program { scenario: "flow", cfg: cfg(slots, maxpdu, nbuf, 1, &rxt), ops }
     }
 
     fn gen_c13(rng: &mut Rng) -> Program {
